@@ -7,10 +7,58 @@ from vc.pyvc import api, lib
 
 
 def native(name, conc, notes):
-    """the real coroutine on a simulated bus; scripted randint"""
+    """the real coroutines on a simulated bus with scripted random draws: small
+    address ranges, addresses already handed out or answered by a terminal at
+    the edges of the range"""
+    import asyncio
+    import itertools
     import ebpfcat.ethercat as E
-    used = conc["self"]["used_addresses"] if isinstance(conc["self"].get("used_addresses"), (list, set)) else []
-    return {"inputs": conc, "reproduced": None, "detail": "no native harness for this clause"}
+    bad = []
+
+    def scenario(lo, hi, used, answering, draws):
+        ec = object.__new__(E.EtherCat)
+        ec.terminal_addr_range = (lo, hi)
+        ec.used_addresses = set(used)
+        seq = itertools.chain(draws, itertools.cycle(range(lo, hi + 1)))
+
+        async def roundtrip(cmd, pos, offset, *a, **k):
+            if cmd is E.ECCmd.FPRD and pos not in answering:
+                raise E.EtherCatError("datagram was not processed")
+            return (0,)
+        ec.roundtrip = roundtrip
+        saved = E.randint
+        E.randint = lambda a, b: next(seq)
+        try:
+            before = set(ec.used_addresses)
+            got = asyncio.run(asyncio.wait_for(ec.find_free_address(), 5))
+        except Exception as e:      # noqa
+            bad.append((lo, hi, sorted(used), sorted(answering), draws, f"{type(e).__name__}: {e}"))
+            return
+        finally:
+            E.randint = saved
+        why = []
+        if not lo <= got <= hi:
+            why.append("outside the configured range")
+        if got in before:
+            why.append("already handed out")
+        if got in answering:
+            why.append("a terminal answers there")
+        if got not in ec.used_addresses:
+            why.append("not recorded as used")
+        if why:
+            bad.append((lo, hi, sorted(used), sorted(answering), draws, f"returned {got}: " + ", ".join(why)))
+    for lo, hi in ((1000, 1003), (5, 6)):
+        span = list(range(lo, hi + 1))
+        for used in ([], [hi], [lo], [hi - 1, hi]):
+            for answering in ([], [hi], [lo]):
+                if set(used) | set(answering) >= set(span):
+                    continue
+                for first in (lo, hi, hi - 1):
+                    scenario(lo, hi, used, answering, [first])
+    return {"inputs": {"scenarios": "ranges 1000..1003 and 5..6 x used/answering addresses at the edges x first draw"},
+            "reproduced": True if bad else None,
+            "detail": f"real EtherCat.find_free_address on a simulated bus, scripted randint; failing (lo, hi, used, "
+                      f"answering, first draw, what): {bad[:3]} ({len(bad)} failing)"}
 
 
 def run(tier, seed):
@@ -21,8 +69,8 @@ def run(tier, seed):
     rep.assume("bus contract: FPRD of register 0x10 at address a raises EtherCatError iff no terminal answers at a")
     rep.assume("A-ASYNC; rely: at an await other tasks may only add to used_addresses")
     rep.assume("random.randint(a, b) returns any integer in [a, b]; termination of the retry loop is not claimed")
-    api.verify(S.find_free_address, rep)
-    api.verify(S.assigned_address, rep)
+    api.verify(S.find_free_address, rep, replay=native)
+    api.verify(S.assigned_address, rep, replay=native)
     return rep.finish(
         explanation="pyvc: the real source of EtherCat.find_free_address with a loop invariant (the used set only "
         "grows) under the rely that concurrent callers only add addresses: the returned address is in range, was "
